@@ -284,15 +284,26 @@ def DataS.column (D : DataS) (r : Req) (clim : Option Vec) (name : String) : Exc
   let a ← D.fieldArr name r.input
   pure (climAdjust D.cfg.climDivide name (applySel (maskObsRange D.cfg.obsRange name a) r.sel) clim)
 
-def DataS.getScores (D : DataS) (r : Req) : Except String (List Vec) := do
-  if r.input ≥ D.nScored then throw "input_index out of range"
-  let obsFcst := r.fields.contains "obs" || r.fields.contains "fcst"
-  let doClim := D.cfg.clim.isSome && obsFcst
-  let clim ← (if doClim then do
-      let c ← D.fieldArr "fcst" (D.inputs.length - 1)
-      pure (some (applySel c r.sel))
-    else pure none)
-  let cols ← r.fields.mapM (D.column r clim)
-  pure (finish r.sel r.fields.length cols)
+/-- does the request involve the climatology? -/
+def DataS.doClim (D : DataS) (r : Req) : Bool :=
+  D.cfg.clim.isSome && (r.fields.contains "obs" || r.fields.contains "fcst")
+
+/-- the climatology's forecast for the slice (when the request involves it) -/
+def DataS.climP (D : DataS) (r : Req) : Except String (Option Vec) :=
+  if D.doClim r then
+    match D.fieldArr "fcst" (D.inputs.length - 1) with
+    | .error e => .error e
+    | .ok c => .ok (some (applySel c r.sel))
+  else .ok none
+
+def DataS.getScores (D : DataS) (r : Req) : Except String (List Vec) :=
+  if r.input ≥ D.nScored then .error "input_index out of range"
+  else
+    match D.climP r with
+    | .error e => .error e
+    | .ok clim =>
+      match r.fields.mapM (D.column r clim) with
+      | .error e => .error e
+      | .ok cols => .ok (finish r.sel r.fields.length cols)
 
 end VerifModel
